@@ -583,13 +583,16 @@ func (d *DistKeyGenerator) ProcessResponses(bundles []*ResponseBundle) (
 	jb *JustificationBundle,
 	err error) {
 
-	if !d.canReceive && d.state != DealPhase {
-		// if we are a old node that will leave
-		err = &PhaseError{
-			DealPhase,
-			d.state,
+	if !d.canReceive {
+		// if we are a old node that will leave: we have issued our deals, and
+		// ProcessDeals (if called at all) silently moved us to the response phase
+		if d.state != DealPhase && d.state != ResponsePhase {
+			err = &PhaseError{
+				DealPhase,
+				d.state,
+			}
+			return nil, nil, err
 		}
-		return nil, nil, err
 	} else if d.state != ResponsePhase {
 		err = &PhaseError{
 			ResponsePhase,
@@ -617,8 +620,9 @@ func (d *DistKeyGenerator) ProcessResponses(bundles []*ResponseBundle) (
 		if bundle == nil {
 			continue
 		}
-		if d.canIssue && bundle.ShareIndex == d.nidx {
-			// just in case we don't treat our own response
+		if d.canIssue && d.newPresent && bundle.ShareIndex == d.nidx {
+			// just in case we don't treat our own response (a node leaving
+			// the group has no new index: nidx is meaningless for it)
 			continue
 		}
 		if !isIndexIncluded(d.c.NewNodes, bundle.ShareIndex) {
